@@ -36,13 +36,16 @@ RankClause(sm, got, exp) ==
   ELSE IF LexLess(sm[got].ds, sm[exp].ds) THEN "MoreSpecificWinsTies"
   ELSE "OfferOrderBreaksTies"
 
+\* the client's order is kept among items of equal (specificity, q)
+OrderOK(f, V, R) == \A i \in 1..Len(V) : Filter(f, R, ClassOf(f, V[i])) = Filter(f, V, ClassOf(f, V[i]))
+
 \* the clauses that need the items V (client's order, normal form) and the recorded order R
 AfterParse(ln, f, V, R) ==
   LET sm  == Summary(f, V, ln.offers)
       ch  == IF f = "language" THEN LangStageS(V, ln.offers, sm, TRUE) ELSE [idx |-> BestOfSummary(sm), stage |-> 1]
       exp == ch.idx
       got == IF ln.none THEN 0 ELSE FirstIdx(ln.offers, ln.best)
-  IN IF \E i \in 1..Len(V) : Filter(f, R, ClassOf(f, V[i])) # Filter(f, V, ClassOf(f, V[i])) THEN "ParseKeepsOrder"
+  IN IF ~OrderOK(f, V, R) THEN "ParseKeepsOrder"
      ELSE IF ln.hasq /\ (Len(ln.quals) # Len(ln.offers) \/ \E k \in 1..Len(ln.offers) : ln.quals[k] # sm[k].q) THEN "QualityIsMostSpecific"
      ELSE IF ~ln.hasbest THEN "ok"
      ELSE IF ~ln.none /\ got = 0 THEN "ChoiceIsAnOffer"
@@ -68,7 +71,11 @@ Judge(ln) ==
        ELSE LET R == FromPairs(ln.order)
                 C == {c \in Candidates(E) : BagOf(NormSeq(c)) = BagOf(R)}
             IN IF C = {} THEN [v |-> "InvalidQIgnored", V |-> <<>>, part |-> TRUE]
-               ELSE LET V == NormSeq(CHOOSE c \in C : TRUE) IN
+               \* Several candidate parses can keep the same items (the same text may be kept from one list element
+               \* or from another under the undecided readings); they differ only in the client's order, so the
+               \* order clause holds iff it holds for one of them.  Quality and choice depend on the bag only.
+               ELSE LET CO == {c \in C : OrderOK(f, NormSeq(c), R)}
+                        V  == NormSeq(IF CO # {} THEN CHOOSE c \in CO : TRUE ELSE CHOOSE c \in C : TRUE) IN
                     IF IsSpecial(E) THEN [v |-> "ok", V |-> V, part |-> TRUE]
                     ELSE [v |-> AfterParse(ln, f, V, R), V |-> V, part |-> FALSE]
   ELSE IF ln.op = "obj" THEN
